@@ -20,7 +20,7 @@ the caller of parse - empties the returned record and writes a foreign key into 
 implementation hands out a second time comes back without its entries and fails (i).
 
 Case kinds (one case = one shard of calls run by one worker): `strings` (streams soup, mutant, nest, literal, literal-pow,
-redos, unicode, fn-edge, fn-pattern: a list of inputs for the shared `soup` parser), `wf` (well-formed formulas of the
+redos, unicode, fn-edge, fn-pattern, fn-empty: a list of inputs for the shared `soup` parser), `wf` (well-formed formulas of the
 C04/C08 generators on their parsers, compared with the model), `long` (one input given as pre + sep.join([unit] * n) + post),
 `fn` (one registered name x one arity x pool tuples, on the shared `pool` parser), `host` (one callback behaviour x its
 formulas, a fresh parser per call), `subs` (one host program x its formulas, a fresh parser per call).
@@ -88,21 +88,33 @@ RULE_STATIC = (
     'passed (outer guard); a worker that dies during a call counts the same. After a call that did not return the rest of the '
     'shard runs in a new worker; a subs shard ends with the first such call, any other case is abandoned after 3. After '
     'judging, the worker (the caller) empties every returned record and writes a foreign key into it: a record object handed '
-    'out twice fails (i). Farm: min(16, cpus) forked workers (recursion limit 1000), overall wall-clock deadline 1500 s quick '
+    'out twice fails (i). At most 8 violations are kept per shard (the last one notes that there were more); the oracle reports '
+    'the first and their number. Farm: min(16, cpus) forked workers (C01_WORKERS overrides the number; recursion limit 1000), '
+    'cases dealt out most expensive first (long, then nest / literal / literal-pow, then by number of calls), overall wall-clock deadline 1500 s quick '
     '/ 6000 s thorough: passed with violations on record -> the unfinished cases are abandoned, verdict VIOLATION; without -> '
     'harness error. scale = 1 (quick: 5 when a listed function changed or the Lean build broke). Streams: (a) strings on one '
-    'parser per worker (va..vn = the pool, function ID, a cell listener over 4 cells, a range listener); soup, mutant, '
+    'parser per worker (va..vn = the pool; vempty = [], vragged = [[1,2],[]], vnest0 = [[]] - empty and ragged arrays, which no '
+    'literal can spell; function ID = its first argument; a cell listener over 4 cells A1, B2, C3, D4 (blank elsewhere); a range '
+    'listener that answers [] for Z1:Z2, [[1,2],[]] for any other range beginning at Z1 (Z1:Z3) and a fresh [[1,2],[3,4]] for '
+    'every other range); soup, mutant, '
     'unicode, wf in cases of 100: soup = 3000 (thorough 30000) x scale seeded concatenations of 1..20 pieces - texts of the 36 '
     'token classes of the soup alphabet (88 texts; coverage of lexer.tokens asserted), 4 % illegal characters (16), in half of '
     'the soups mostly from a 28-piece operand/operator list - + a sixth as many soups of 1..13 bracket/quote/separator pieces '
     '+ every token text and illegal character alone + "", " ", "=", "=1", "=1+1"; wf = the well-formed formulas of 500 (4000) '
-    'x scale seeded trees of depth 1..5 (1..7): 55 % C04 operator trees (c04.gen_top, no error leaves) rendered minimal, fully '
-    'parenthesised and with white space / an outer parenthesis, on the C04 parser (its ID function and cell and variable '
-    'listeners re-enter parse), 45 % C08 error-propagation trees (c08.gen, error-leaf probability 0.15/0.3/0.6) under one of '
-    'the 10 C08 wrappers on the C08 parser; mutant = 3 per wf formula: prefix, suffix, a character or a slice deleted, a '
+    'x scale seeded trees of depth 1..5 (1..7): 55 % C04 operator trees (c04.gen_top as it runs outside C04\'s own cases(): no '
+    'error leaves, no blank operands, no non-dyadic decimals) rendered minimal, fully '
+    'parenthesised and with white space / an outer parenthesis (3 formulas per tree), on the C04 parser (its ID function and cell and variable '
+    'listeners re-enter parse), 45 % C08 error-propagation trees (c08.gen, error-leaf probability 0.15/0.3/0.6: 4 % a text '
+    'that spells an error code, else numeric / comparison / & trees over prime literals whose error leaves are in 15 % an '
+    'error operand against an array operand of + - * /, else 55 % classic '
+    'producers - error literals, e_ variables, n/0, "a"+1, NA(), SUM(1/0), RAISE_x(), PYRAISE(), ID(1/0) -, 45 % family '
+    'producers - pre-1900 date arithmetic, text under + - * /, division by a zero-like, failing builtin calls, those nested '
+    'in a call, cells holding errors; one formula per tree) under one of '
+    'the 13 C08 wrappers (as is, IFERROR/IFNA with fallbacks 777, 555, 0, FALSE, "", ISERROR, ISERR, ISNA, ERROR.TYPE, through '
+    'ID, negated, compared) on the C08 parser; mutant = 3 per wf formula: prefix, suffix, a character or a slice deleted, a '
     'character or the whole formula doubled, two characters swapped, one of 21 pieces inserted; nest = 24 '
     'bracket/paren/call/operator/quote/postfix shapes, balanced and unbalanced, at depths 1,2,3,10,50,200,1000 (+10^4 '
-    'thorough; up to 1.1*10^4 / 1.1*10^5 characters); literal = 54 numeric-literal forms (up to 5000 digits, . % ^ e forms, '
+    'thorough; up to 1.1*10^4 / 1.1*10^5 characters), one case per depth; literal = one case of 54 numeric-literal forms (up to 5000 digits, . % ^ e forms, '
     'powers beyond the doubles such as 10^400, 9^99999); literal-pow = 7 power literals (9^99999999 bare, negated and inside '
     'SUM, 2^(40 nines), (40 nines)^(40 nines), 3^1023, 99^170), one case each; redos = 3633 near-misses of the token rules, '
     'one case each: 21 units (backslash escapes, quotes, fragments of names, cells, numbers and error literals, operators, '
@@ -118,16 +130,22 @@ RULE_STATIC = (
     '#DIV/0!, #N/A, #VALUE!, the date 2020-02-29, {1,2,3}, {{1,2},{3,4}} - one value of every type) bound to variables va..vn '
     '(the array values are restored when a builtin changed them in place; counted in the statistics): quick = arities 0..2 '
     'complete (211 calls per name) + 60 x scale seeded tuples each of arity 3 and 4; thorough = arities 0..4 COMPLETE, '
-    'N*(1+14+14^2+14^3+14^4) calls, + 3000 more arity-4 tuples per modelled name for the model; arguments outside the pool are '
-    'not part of this stream; a callFunction listener counts the dispatches: a fn shard with fewer dispatches than calls is a '
+    'N*(1+14+14^2+14^3+14^4) calls (arity 4 in 14 shards of 14^3), + 3000 x scale more arity-4 tuples per modelled name for the model; arguments outside the pool are '
+    'not part of this stream; a callFunction listener counts the dispatches of the name: a fn shard without violation whose '
+    'number of dispatches differs from its number of calls is a '
     'harness error; fn-edge (a strings case per name) = every name on numeric edges written as literals: 25 numbers (incl. 2^53+1 and its negative; +-0.5, '
     '+-10^-9, 0, -0, +-1, +-1.5, 2, 36, 37, +-255, +-10^15, +-10^300, 2^53, +-(2^53+1), 0.1, 0.25, -2.5) alone and in all 25^2 pairs, 7 numeric '
     'texts at the edges of float() ("1e400", "nan", "inf", "1e-400", REPT("9",400), ...) alone and paired both ways with 6 '
-    'small numbers, 40 (600) x scale seeded triples over 13 of the numbers: 775 (1335) calls per name; fn-pattern = one case '
+    'small numbers, 40 (600) x scale seeded triples (at most all 13^3) over 13 of the numbers (the first 12 and 10^15): 781 '
+    '(1341) calls per name at scale 1; fn-pattern = one case '
     'of 242 calls: 11 wildcard patterns whose literal tail occurs in neither text (6..24 groups "*-" or "*a", 14 x "?*", 30 x '
     '"*", also behind the criteria prefixes <> and =) x 2 texts (48 words joined by "-"; 40 x "a") x COUNTIF, SUMIF, '
-    'AVERAGEIF, their ...IFS forms, MAXIFS and MATCH over {text,text,1}, SEARCH, FIND, SUBSTITUTE on the text; (d) host = a '
-    'fresh parser per call with one misbehaving callback: a custom function F (69 behaviours x 16 formula forms), the value of '
+    'AVERAGEIF, their ...IFS forms, MAXIFS and MATCH over {text,text,1}, SEARCH, FIND, SUBSTITUTE on the text; fn-empty (a '
+    'strings case per name, on the soup parser) = every name on the empty and ragged arrays only the host can supply - the '
+    '5 operands vempty, vragged, vnest0, Z1:Z2, Z1:Z3 alone, as first argument before 1, "a", vempty, as second after 1, "a", as '
+    'NAME(1,x,2) and NAME(x,1,1): 40 calls per name - + one case of 11 operator formulas over them (vempty, vempty+1, 1-vragged, '
+    'vempty&"a", vempty=vempty, -vempty, Z1:Z2, Z1:Z3*2, {1,2}+vempty, vnest0*vnest0, IF(vempty,1,2)); (d) host = a '
+    'fresh parser per call (variable a = 3, function ID) with one misbehaving callback: a custom function F (69 behaviours x 16 formula forms), the value of '
     'variable x (31 values x 14 forms), a listener on each of the four events (71 behaviours x 6..7 forms). return/hold (31): '
     'any pool value, a foreign XLError("#WEIRD"), an XLError subclass, one whose __str__ raises, XLError() without message, '
     'the XLError class, object(), a record-like dict, nan, inf, 10^5000, bytes, a tuple and a list holding errors, a value '
@@ -153,17 +171,23 @@ RULE_STATIC = (
     'one and with several references of that event and on 11 mixed formulas; 1 fixed regression case (a callCellValue listener '
     'that subscribes itself again); generated = 250 (3000) x scale seeded programs of 1..3 handlers x 1..4 actions (at most 2 '
     'on/once each), 1..2 initial subscriptions (on/once, any event), in 35 % a custom function, on 6..9 formulas of at most 4 '
-    'emits; a fresh parser per call; the host callables stop acting after 300000 calls per parse (their own bound; under '
+    'emits; a fresh parser per call (a = 3, b = "txt", F = its first argument unless the program binds F); the host callables stop acting after 300000 calls per parse (their own bound; under '
     'snapshot delivery they are called once per subscription and emit, at most 120 times); after the first call of a subs '
     'shard that overruns a budget the other formulas of the shard (same host program) are not run. Model comparison (eval of '
     'the Lean model, same formulas and environment): wf formulas; fn calls of the builtins the Lean driver reports as modelled '
     '(125 of the 156; quick: arities 0..2 complete + the samples; thorough: 0..3 complete + the sample of 4); host function F '
     'that returns a pool value or raises a singleton or a ValueError, host variable x holding a pool value; all else (soup, '
-    'mutant, nest, literal, literal-pow, redos, unicode, long, fn-edge, fn-pattern, listeners, odd host values, subs - the '
-    'model has no subscriptions) is oracle only. Records agree up to 4 ulps or 1e-9 relative on floats, 2 us + 2^-49 relative '
-    'on dates; not compared: model records without opinion, calls that violated (v), = < > on an array-valued host value, '
+    'mutant, nest, literal, literal-pow, redos, unicode, long, fn-edge, fn-pattern, fn-empty, the thorough arity-4 shards, '
+    'listeners, re-entering and odd host values, subs - the '
+    'model has no subscriptions) is oracle only. Records agree up to 4 ulps or 1e-9 relative (absolute below 1) on floats, 2 us + 2^-49 relative '
+    'on dates, a logical may stand for the model integer of the same value; a model answer with another number of records than formulas is a disagreement; not '
+    'compared: model records without opinion, calls on which the oracle found a violation (no record is kept), = < > on an array-valued host value (F or x holding {1,2,3} or {{1,2},{3,4}}), '
     'complex results, GEOMEAN/HARMEAN when both sides report an error. When the Lean build or the comparison broke and no call '
-    'failed, every stream is generated again with scale >= 4 (wf left out), oracle only, until the first failure. Non-trivial '
+    'failed, every stream is generated again with scale >= 4 and judged by the oracle only, until the first failure (the wf '
+    'cases are generated and run with the batch but not judged). A failing shard is reduced to its single failing call (run '
+    'again in a farm with a deadline of 600 s; kept if it fails again) and, for a strings call that was not killed and whose '
+    'worker did not die, characters are deleted while it still fails (at most 80 runs); long cases and other single-call '
+    'cases are reported as they are. Non-trivial '
     '= at least one call of the shard was made. One case = one shard of calls = one evaluation; the number of calls is in the '
     'run statistics appended below.')
 RULE = RULE_STATIC
@@ -189,7 +213,14 @@ TRUSTED = ['the step counter (sys.monitoring JUMP + PY_START events, CPython >= 
            'several failing items are not compared with the model (evaluate_logic is modelled on scalars; statistics consumes '
            'its data lazily)',
            'strings, fn and wf calls of one worker share one parser per set-up (host and subs calls get a fresh one); only the '
-           'two array pool values are restored between calls']
+           'two array pool values (vm, vn, on the pool and soup parsers) are restored between calls; the host arrays vempty, '
+           'vragged, vnest0 of the soup parser and the variables of the C04 and C08 parsers are not',
+           'stream fn-empty (empty and ragged arrays handed over by the host - variables vempty, vragged, vnest0, the range '
+           'listener\'s answers for Z1:Z2 and Z1:Z3 - given to every registered name) is oracle only: no model request carries an '
+           'empty or ragged array',
+           'the 1e-9 relative tolerance on floats is 1e-9 * max(1, |model value|), i.e. absolute below 1; a disagreement or '
+           'oracle failure is evaluated again alone in a fresh interpreter by the harness (common.fresh_process_probe / '
+           'standalone_failure) to tell the input from the history of the process']
 ASSUMPTIONS = ['"raising" host callbacks raise subclasses of Exception (ill-behaved ones included: unhashable, ==/hash/truth '
                'value/str/traceback setter raising, a class instead of an instance); KeyboardInterrupt, SystemExit, '
                'GeneratorExit and other bare BaseException subclasses propagate by design (`except Exception`) and are not '
@@ -214,6 +245,9 @@ ASSUMPTIONS = ['"raising" host callbacks raise subclasses of Exception (ill-beha
                '"whatever the ... custom functions and event listeners do" includes returning normally after changing the '
                'subscriptions and bindings of the calling parser, re-entering parse on it and editing the records such inner '
                'calls return',
+               '"whatever the registered variables ... and event listeners do" includes binding a variable to, or answering a '
+               'range request with, an array that no formula literal can spell: an empty list, rows of unequal length, [[]] '
+               '(stream fn-empty): a builtin handed such an array is inside the statement',
                'the input is a str (any code points, lone surrogates and NUL included, also the empty string); other argument '
                'types are outside the statement']
 EXHAUSTIVE = {'quick': False, 'thorough': False}   # (c) is complete in thorough; strings and host behaviours sample infinite spaces
